@@ -23,13 +23,13 @@ func init() {
 }
 
 type corruptCase struct {
-	Content []int  `json:"content"`
-	Target  absKey `json:"target"`
-	IsRoot  bool   `json:"isroot"`
-	Leaf    int    `json:"leaf"`
-	Kind    string `json:"kind"`
-	Arg     int    `json:"arg"`
-	Damaged bool   `json:"damaged"`
+	Content []int    `json:"content"`
+	Target  absKey   `json:"target"`
+	IsRoot  bool     `json:"isroot"`
+	Leaf    int      `json:"leaf"`
+	Kind    string   `json:"kind"`
+	Arg     int      `json:"arg"`
+	Damaged bool     `json:"damaged"`
 	Whole   []string `json:"whole"`
 	ReadAts []struct {
 		Off     int      `json:"off"`
